@@ -40,7 +40,7 @@ G = {
     'stmt': [[N('simple'), 'NL'], [N('simple'), ';', N('simple'), 'NL'], [N('simple'), ';', 'NL']] + COMPOUND,
     'suite': [['pass', 'NL'], [N('simple'), 'NL'], ['NL', 'IND', N('stmts'), 'DED'], [N('simple'), ';', N('simple'), 'NL']],
     'target': [['t'], ['t', '.', 'm'], ['t', '[', E, ']'], ['t', ',', 'u'], ['(', 't', ',', 'u', ')'], ['[', 't', ',', 'u', ']'], ['*', 't', ',', 'u'],
-               ['(', 't', ')'], ['t', ',']],
+               ['(', 't', ')'], ['t', ','], ['(', ')'], ['[', ']']],
     'simple': [[E],
                [N('target'), '=', N('rhs')], [N('target'), '=', N('target'), '=', N('rhs')],
                ] + [['t', op, N('rhs')] for op in augops] + [
